@@ -184,7 +184,29 @@ pub fn edit(rng: &mut crate::rng::Rng, s: &Sexp) -> Sexp {
         }
         None
     };
-    map_types(s, &mut f)
+    let edited = map_types(s, &mut f);
+    // alternatively: change the binder list of one quantified bound of a `dyn` type (the pre-filter
+    // ignores binders; the unifier instantiates them, so such pairs can still unify)
+    if !done && rng.chance(1, 2) {
+        return edit_qwc_binders(rng, &edited);
+    }
+    edited
+}
+
+fn edit_qwc_binders(rng: &mut crate::rng::Rng, s: &Sexp) -> Sexp {
+    match s {
+        Sexp::List(xs) if xs.first().and_then(|x| x.as_atom()) == Some("qwc") && xs.len() == 3 => {
+            let mut ks = xs[1].as_list().unwrap().to_vec();
+            if ks.is_empty() || rng.chance(1, 2) {
+                ks.push(if rng.chance(1, 2) { atom("klt") } else { tagged("kty", vec![atom("g")]) });
+            } else {
+                ks.pop();
+            }
+            Sexp::List(vec![xs[0].clone(), list(ks), xs[2].clone()])
+        }
+        Sexp::List(xs) => Sexp::List(xs.iter().map(|x| edit_qwc_binders(rng, x)).collect()),
+        a => a.clone(),
+    }
 }
 
 fn gen_domain_goal(g: &mut Gen, depth: usize) -> Sexp {
